@@ -62,8 +62,9 @@ def run_chain(ctx):
         il_attr = rng.choice([0.0, 0.3, 1.0])
         al_attr = rng.choice([0.0, 0.5])
         with core.quiet():
+            warp = rng.random() < 0.2      # with warp_flag straight moves are subdivided like curves
             wg = Waveguide(speed=rng.choice([20.0, 5.0]), radius=r_attr, int_length=il_attr, arm_length=al_attr, cmd_rate_max=rng.choice([1200, 200]),
-                           speed_closed=rng.choice([5, 40.0]), samplesize=(100, 50))
+                           speed_closed=rng.choice([5, 40.0]), samplesize=(100, 50), warp_flag=warp)
             start = [rng.choice([-2.0, 0.0, 3.5]), rng.choice([0.0, 0.5, -1.25]), rng.choice([0.035, 0.0, -0.5])]
             wg.start(start)
         ops, steps, bad = [], [], None
@@ -190,7 +191,10 @@ def run_chain(ctx):
             circ_pts = None
             if k == 'circ':
                 circ_pts = (last64, rr, a0, np.array(wg._x[n0:], dtype=np.float64), np.array(wg._y[n0:], dtype=np.float64))
-            steps.append({'k': k, 'last': last64, 'first': first, 'now': now, 'exp': exp, 'circ': circ_pts, 'r': rr, 'dy': dy})
+            lin_pts = None
+            if k in ('lin_inc', 'lin_abs') and wg._x.size - n0 > 1:
+                lin_pts = np.column_stack([np.array(wg._x[n0:], dtype=np.float64), np.array(wg._y[n0:], dtype=np.float64), np.array(wg._z[n0:], dtype=np.float64)])
+            steps.append({'k': k, 'last': last64, 'first': first, 'now': now, 'exp': exp, 'circ': circ_pts, 'r': rr, 'dy': dy, 'lin': lin_pts, 'warp': warp})
             ops.append(mop if mop is not None else {'k': 'set', 'x': bits(now[0]), 'y': bits(now[1]), 'z': bits(now[2])})
         # end()
         endinfo = None
@@ -205,7 +209,7 @@ def run_chain(ctx):
     for (start, steps, bad, endinfo, ncurved), m in zip(cases, res):
         if isinstance(m, dict) and 'driver_error' in m:
             raise core.InfraError(m['driver_error'])
-        summary = {'start': start, 'ops': [{'k': s['k'], 'r': s['r'], 'dy': s['dy']} for s in steps]}
+        summary = {'start': start, 'warp_flag': bool(steps and steps[0]['warp']), 'ops': [{'k': s['k'], 'r': s['r'], 'dy': s['dy']} for s in steps]}
         ctx.seen({'stream': 'chain', **summary}, ncurved >= 2)
         for s in steps:
             ctx.count('chain.op', s['k'])
@@ -217,6 +221,20 @@ def run_chain(ctx):
         for j, s in enumerate(steps):
             scale = max(scale, max(abs(v) for v in s['now']))
             tol = 4e-6 * scale * (j + 2)
+            if s['lin'] is not None:
+                # a subdivided straight move: starts at the current end, every point on the segment to the documented end
+                a, b = np.array(s['last']), np.array(s['exp'])
+                ab = b - a
+                L2 = float(ab @ ab)
+                off = 0.0
+                for pnt in s['lin']:
+                    t = 0.0 if L2 == 0 else min(1.0, max(0.0, float((pnt - a) @ ab) / L2))
+                    off = max(off, float(np.linalg.norm(pnt - (a + t * ab))))
+                if list(s['lin'][0]) != s['last'] or off > tol:
+                    ctx.fail('spec', 'chain', {**summary, 'step': j, 'first': list(s['lin'][0]), 'last': s['last'], 'off_segment': off},
+                             f'subdivided {s["k"]} does not start at the current end or leaves the straight segment (by {off:.3g})', 'continuity:linear')
+                    ok = False
+                    break
             if s['k'] not in ('lin_inc', 'lin_abs') and s['first'] is not None and s['first'] != s['last']:
                 ctx.fail('spec', 'chain', {**summary, 'step': j}, f'{s["k"]} does not start at the current end: {s["first"]} vs {s["last"]}', 'continuity')
                 ok = False
